@@ -49,8 +49,10 @@ def generate(rng, tier):
     for i in range(n):
         kind = ["visual", "bvisual", "visual", "sort"][i % 4]
         cases.append(lifetime(rng, kind, steps, hist=1 + (i % 10) if i % 3 else 1 + (i // 3) % 3))
-    for i in range(n // 2):
-        cases.append(history(rng, ["visual", "bvisual"][i % 2], 30, api_mix=False))
+    # several objects per scene occluding one another, mostly with own-area thresholds (set independently for `use` and
+    # `collect`): whether a continuing detection's feature enters the gallery then depends on its exclusively owned share
+    for i in range(n):
+        cases.append(history(rng, ["visual", "bvisual"][i % 2], 30, api_mix=False, own_p=0.9))
     return cases
 
 
